@@ -203,6 +203,57 @@ func c13(c *Ctx) {
 	r.Explanation = "Gate dominance: every statement in client-reachable code that performs a privileged state change is located by what it writes (channel modes/key/bans/operator bits/topic, another user's membership, invitations, another user's modes, killing another session, the ban list, network-wide notices, operator and server status, membership of an existing channel) and the corresponding privilege test must hold on every path to it (clauses derived from the dominating branch conditions, with De Morgan and local boolean definitions resolved). For JOIN the invite/captcha/ban/key tests are path rules over the else-if chain. Decides the code shape; whether the privilege bits themselves are right at that moment is history (C14 keeps them consistent)."
 	r.Rules = []string{"C13.E1 channel settings need chanop|oper and membership", "C13.E2 topic needs membership and (!+t | chanop)", "C13.E3 kick needs chanop", "C13.E4 invite", "C13.E5 other user's modes need oper", "C13.E6 oper-only effects", "C13.E7 becoming operator", "C13.E8 becoming a server link", "C13.E9 joining an existing channel", "C13.E10 services commands only from server links", "C13.E11 captcha verification", "C13.E12 a ban that is set is stored"}
 
+	// helper summary: non-handler functions with a *Session parameter that (transitively) hand it to deleteSessionLocked
+	endsSessParam := map[*load.FuncInfo]int{}
+	if dslF := c.P.Func("ircserver.(*IRCServer).deleteSessionLocked"); dslF != nil {
+		for changed := true; changed; {
+			changed = false
+			for _, fi := range c.P.FuncsIn("ircserver") {
+				if fi.Body() == nil || f.Client[fi] || f.Server[fi] || fi == dslF {
+					continue
+				}
+				if _, done := endsSessParam[fi]; done {
+					continue
+				}
+				info := fi.Info()
+				k := 0
+				params := map[types.Object]int{}
+				for _, fld := range fi.FuncType().Params.List {
+					for _, nm := range fld.Names {
+						if o := info.Defs[nm]; o != nil && astx.NamedOf(o.Type()) == f.tSession {
+							params[o] = k
+						}
+						k++
+					}
+				}
+				if len(params) == 0 {
+					continue
+				}
+				for _, call := range astx.Calls(fi.Body(), true) {
+					fn := astx.Callee(info, call)
+					if fn == nil {
+						continue
+					}
+					cal := c.P.FuncOf(fn)
+					argIdx := -1
+					if cal == dslF {
+						argIdx = 0
+					} else if pi, ok := endsSessParam[cal]; ok {
+						argIdx = pi
+					}
+					if argIdx < 0 || argIdx >= len(call.Args) {
+						continue
+					}
+					if id, ok := ast.Unparen(call.Args[argIdx]).(*ast.Ident); ok {
+						if pi, isParam := params[astx.Obj(info, id)]; isParam {
+							endsSessParam[fi] = pi
+							changed = true
+						}
+					}
+				}
+			}
+		}
+	}
 	// helper summary: functions with a *channel parameter that (transitively) write channel fields of it
 	writesChanParam := map[*load.FuncInfo]int{} // function -> parameter index
 	for changed := true; changed; {
@@ -387,6 +438,10 @@ func c13(c *Ctx) {
 				}
 				if cal != nil && cal == dsl && len(x.Args) >= 1 && !gc.isS(x.Args[0]) {
 					c.c13Oper(gc, g, x, "ending another session ("+astx.Str(x.Args[0])+")")
+				}
+				// … also through a helper that ends the session it is given
+				if pi, ok := endsSessParam[cal]; ok && cal != nil && pi < len(x.Args) && !gc.isS(x.Args[pi]) {
+					c.c13Oper(gc, g, x, "ending another session ("+astx.Str(x.Args[pi])+") through "+shortName(cal))
 				}
 				if fname(fn) == "sendAllUsers" {
 					c.c13Oper(gc, g, x, "network-wide notice (sendAllUsers)")
@@ -1408,6 +1463,39 @@ func (c *Ctx) c13BanStored() {
 	}
 	if n == 0 {
 		r.Break("C13.E12: no branch on the add parameter found in ban()")
+	}
+	// banBoth files the mask as written and, whenever it differs, the mask with the session resolved to its address
+	if bb := c.MustFunc("ircserver.banBoth"); bb != nil && bb.Body() != nil {
+		bi := bb.Info()
+		bg := c.Graph(bb)
+		var calls []*ast.CallExpr
+		for _, call := range astx.Calls(bb.Body(), false) {
+			if astx.Callee(bi, call) == fi.Obj {
+				calls = append(calls, call)
+			}
+		}
+		okShape := len(calls) == 2
+		if okShape {
+			first, second := calls[0], calls[1]
+			v1, v2 := bg.VertexOf(first), bg.VertexOf(second)
+			// the first is unconditional, the second sits under <a> != <b> of two string parameters and behind the first
+			okShape = len(bg.CondsAt(v1)) == 0 && bg.DominatedBy(v2, func(x *cfgx.Vertex) bool { return x.ID == v1 })
+			okNE := false
+			for _, f := range bg.FactsAt(v2) {
+				if be, ok := ast.Unparen(f.Expr).(*ast.BinaryExpr); ok && f.Tag == nil && ((be.Op == token.NEQ && f.Val) || (be.Op == token.EQL && !f.Val)) {
+					if len(second.Args) >= 4 && len(first.Args) >= 4 {
+						a, b := first.Args[len(first.Args)-1], second.Args[len(second.Args)-1]
+						if (astx.Same(bi, be.X, a) && astx.Same(bi, be.Y, b)) || (astx.Same(bi, be.X, b) && astx.Same(bi, be.Y, a)) {
+							okNE = true
+						}
+					}
+				}
+			}
+			okShape = okShape && okNE
+		}
+		r.Check(okShape, "C13.E12", bb.Name(), "both forms of a ban are filed: as written, and resolved whenever that differs", c.P.Pos(bb.Node().Pos()), "ban(pattern) unconditionally, ban(patternAddr) under patternAddr != pattern",
+			"banBoth does not file the resolved-address form of a ban exactly when it differs from the written one: a ban by cloak no longer covers the person's address (or is filed twice)")
+		c.errorDiscipline("C13.E12", bb, "a ban mask that does not compile is reported as set")
 	}
 }
 
